@@ -8,7 +8,7 @@ for p in sorted(glob.glob("/verif/seeded/*/meta.json")):
     caught = ", ".join("%s (%d)" % (k, v["violations"]) for k, v in sorted(res.items()) if v["exit"] == 1 and v["violations"] > 0) or "—"
     missed = ", ".join(k for k, v in sorted(res.items()) if not (v["exit"] == 1 and v["violations"] > 0))
     t = m["title"].split(":", 1)[-1].strip()
-    rows.append("| `%s` | %s | %s | %s%s |" % (m["id"].split("-")[0], ", ".join(os.path.basename(f) for f in m["files_changed"]), t[:150], caught,
+    rows.append("| `%s`%s | %s | %s | %s%s |" % (m["id"].split("-")[0], " (r3)" if m.get("round") == 3 else "", ", ".join(os.path.basename(f) for f in m["files_changed"]), t[:150], caught,
                                                 (" · not by " + missed) if missed else ""))
 print("| property | file changed | seeded change (independent sub-agent; property text only) | caught by (violations reported, quick tier) |\n|---|---|---|---|")
 print("\n".join(rows))
